@@ -9,8 +9,8 @@
     (statements printed by Coq from the lemmas they are proved by - tools/mkprop.py; statements only) *)
 From Coq Require Import Permutation Sorted.
 From CC Require Import Base.Prelude Base.Alloc Base.Ledger Generated.Status Generated.Constants Generated.Guards.
-From CC Require Import Rbuf.RbufModel SPool.SPoolModel DPool.DPoolModel Array.ArrayModel Deque.DequeModel PQueue.PQueueModel Hash.HashModel Tst.TstModel Tree.TreeModel.
-From CC Require Import Array.ArrayMore Array.ArrayProofs Array.ArrayRefine DPool.DPoolLedger Deque.DequeProofs3 Deque.DequeProofs4 Deque.DequeProofs5 Hash.HashProofsE PQueue.PQueueProofs2 Rbuf.RbufProofs Tree.TreeTheorems Tst.TstProofs2.
+From CC Require Import Rbuf.RbufModel SPool.SPoolModel DPool.DPoolModel Array.ArrayModel Deque.DequeModel PQueue.PQueueModel Hash.HashModel Tst.TstModel Tree.TreeModel List_.ListModel SList.SListModel.
+From CC Require Import Array.ArrayMore Array.ArrayProofs Array.ArrayRefine DPool.DPoolLedger Deque.DequeProofs3 Deque.DequeProofs4 Deque.DequeProofs5 Hash.HashProofsE List_.ListProofs6 List_.ListProofs8 PQueue.PQueueProofs2 Rbuf.RbufProofs SList.SListProofs7 Tree.TreeTheorems Tst.TstProofs2.
 Local Open Scope N_scope.
 
 (** CC_Array growth: new buffer first, commit after; refusal = same array, one refused request *)
@@ -368,4 +368,42 @@ Theorem C08_dpool_new :
          end.
 Proof. exact CC.DPool.DPoolLedger.dp_new_spec. Qed.
 Print Assumptions C08_dpool_new.
+
+(** CC_List: any step with a non-OK status (incl. ERR_ALLOC in add, add_at, add_all's external chain, iterator add) leaves both lists and the live blocks equal *)
+Theorem C08_list_frame :
+  forall (cmp : N -> N -> comparison) (pred : N -> bool) (w : world) (hd : hnd) 
+           (o : lop) (out : lout) (w' : world),
+         ListProofs4.winv w -> cl_step cmp pred w hd o = Ok (out, w') -> frame_ok w w' out.
+Proof. exact CC.List_.ListProofs8.step_frame. Qed.
+Print Assumptions C08_list_frame.
+
+(** CC_SList *)
+Theorem C08_slist_frame :
+  forall (cmp : N -> N -> comparison) (pred : N -> bool) (w : sworld) (hd : shnd) 
+           (o : sop) (out : sout) (w' : sworld),
+         SListProofs3.swinv w -> sl_step cmp pred w hd o = Ok (out, w') -> sframe_ok w w' out.
+Proof. exact CC.SList.SListProofs7.sstep_frame. Qed.
+Print Assumptions C08_slist_frame.
+
+(** CC_List copies / filter / sublist: a refusal part-way releases the partial result *)
+Theorem C08_list_copy :
+  forall (f : N -> N) (keep : N -> bool) (s : clist) (l : list (N * N)) (a : alloc_st),
+         ListHeap.lrep s l ->
+         ListHeap.lok a ->
+         exists r : stat * option clist * alloc_st,
+           cl_copy_with f keep s a = Ok r /\
+           derived_ok (map f (filter keep (map snd l))) (l_mem s) a (live a) r.
+Proof. exact CC.List_.ListProofs6.copy_with_spec. Qed.
+Print Assumptions C08_list_copy.
+
+Theorem C08_list_sublist :
+  forall (s : clist) (l1 mid l3 : list (N * N)) (a : alloc_st),
+         ListHeap.lrep s (l1 ++ mid ++ l3) ->
+         ListHeap.lok a ->
+         mid <> [] ->
+         exists r : stat * option clist * alloc_st,
+           cl_sublist s (lenN l1) (lenN l1 + lenN mid - 1) a = Ok r /\
+           derived_ok (map snd mid) (l_mem s) a (live a) r.
+Proof. exact CC.List_.ListProofs6.sublist_spec. Qed.
+Print Assumptions C08_list_sublist.
 
